@@ -447,6 +447,7 @@ func (h *hintMgr) dumpAndMerge(forGC bool) (maxSilence int64) {
 func (h *hintMgr) RemoveMerged() {
 	paths, _ := filepath.Glob(h.getPath(-1, -1, true))
 	for _, path := range paths {
+		verifPoint("fs.remove", path)
 		utils.Remove(path)
 	}
 	h.merged = nil
@@ -628,6 +629,7 @@ func (h *hintMgr) RemoveHintfilesByChunk(chunkID int) {
 	pattern := h.getPath(chunkID, -1, false)
 	paths, _ := filepath.Glob(pattern)
 	for _, p := range paths {
+		verifPoint("fs.remove", p)
 		utils.Remove(p)
 	}
 }
@@ -646,9 +648,11 @@ func (hm *hintMgr) findValidPaths(chunkID int) (hints []string) {
 		sid, err := strconv.Atoi(name[4:7])
 		if err != nil {
 			logger.Errorf("find bad hint: hint_path=%s", path)
+			verifPoint("fs.remove", path)
 			utils.Remove(path)
 		} else if sid != n {
 			logger.Errorf("find bad hint: hint_path=%s, expect_split_id=%d, got_split_id=%d", paths, n, sid)
+			verifPoint("fs.remove", path)
 			utils.Remove(path)
 		} else {
 			hints = append(hints, path)
@@ -669,6 +673,7 @@ func (hm *hintMgr) loadHintsByChunk(chunkID int) (datasize uint32) {
 	for _, p := range paths0 {
 		if err != nil {
 			logger.Errorf("a failure of loading hint happened before: curr_hint_path=%s", p)
+			verifPoint("fs.remove", p)
 			utils.Remove(p)
 			continue
 		}
@@ -676,6 +681,7 @@ func (hm *hintMgr) loadHintsByChunk(chunkID int) (datasize uint32) {
 		sp.file, err = loadHintIndex(p)
 		if err != nil {
 			logger.Errorf("fail to load hint: hintpath=%s", p)
+			verifPoint("fs.remove", p)
 			utils.Remove(p)
 		} else {
 			logger.Infof("load hint %s datasize = %d", p, sp.file.datasize)
